@@ -1,4 +1,15 @@
-//! C29 stub (timing probe) — replaced by the real harness.
+//! C29 — encrypted capsules round-trip exactly and reject tampering (feature `encryption`).
+//!
+//! impl : memvid_core::encryption::{lock_file, unlock_file} on real files in a temp dir.
+//! model: drv_c29 — `lock`/`unlock` of MvModel/Capsule.lean instantiated with a TOY AEAD and KDF
+//!        whose ciphertexts have the length of the AES-256-GCM ones, so the toy capsule has the
+//!        byte layout of the real one and the same edit recipe is applied to both.
+//! oracle (independent of the model): unlock(lock f) = f byte for byte; every capsule that
+//!        differs from lock's output (or a wrong password) must give Err, leave the output path
+//!        as it was and leave no temporary file behind; an Ok never carries bytes other than f.
+//!
+//! Argon2id runs with minimal cost parameters (cfg(memvid_verif) hook MEMVID_VERIF_FAST_KDF) for
+//! all but a few cases per run, which use the production parameters.
 #[cfg(not(feature = "encryption"))]
 fn main() {
     eprintln!("c29: built without --features encryption");
@@ -7,18 +18,656 @@ fn main() {
 
 #[cfg(feature = "encryption")]
 fn main() {
-    use memvid_core::encryption::{lock_file, unlock_file};
-    let dir = tempfile::tempdir().unwrap();
-    let p = dir.path().join("a.mv2");
-    let mut f = b"MV2\0".to_vec();
-    f.extend(std::iter::repeat(7u8).take(3 * 1024 * 1024));
-    std::fs::write(&p, &f).unwrap();
-    let t = std::time::Instant::now();
-    let c = lock_file(&p, None, b"pw").unwrap();
-    println!("lock {:?}", t.elapsed());
-    let t = std::time::Instant::now();
-    let o = dir.path().join("o.mv2");
-    unlock_file(&c, Some(&o), b"pw").unwrap();
-    println!("unlock {:?}", t.elapsed());
-    assert_eq!(std::fs::read(&o).unwrap(), f);
+    real::main()
+}
+
+#[cfg(feature = "encryption")]
+mod real {
+    use memvid_core::encryption::{EncryptionError, lock_file, unlock_file};
+    use mvh::*;
+    use std::path::{Path, PathBuf};
+
+    const HDR: usize = 64;
+    const CHUNK: usize = 1024 * 1024;
+    const SENTINEL: &[u8] = b"previous content of the output path";
+    const SIG_IGNORED: &str = "ignored-header-bytes-unauthenticated";
+    const SIG_SIZE_EDIT: &str = "truncation-plus-size-edit-accepted";
+    const SIG_ONESHOT: &str = "oneshot-rewrap-of-one-chunk-accepted";
+    const SIG_TRUNC: &str = "truncated-stream-accepted";
+
+    fn fnv(b: &[u8]) -> u64 {
+        let mut h: u64 = 0xCBF2_9CE4_8422_2325;
+        for &x in b {
+            h = (h ^ x as u64).wrapping_mul(0x0000_0100_0000_01B3);
+        }
+        h
+    }
+
+    /// MV2 magic followed by an xorshift64 byte stream (the driver generates the same bytes)
+    fn gen_file(seed: u64, len: usize) -> Vec<u8> {
+        let mut v = b"MV2\0".to_vec();
+        let mut x = seed | 1;
+        for _ in 4..len {
+            x ^= x << 13;
+            x ^= x >> 7;
+            x ^= x << 17;
+            v.push((x >> 32) as u8);
+        }
+        v
+    }
+
+    fn err_kind(e: &EncryptionError) -> &'static str {
+        match e {
+            EncryptionError::Io { .. } => "io",
+            EncryptionError::InvalidMagic { .. } => "invalid-magic",
+            EncryptionError::UnsupportedVersion { .. } => "unsupported-version",
+            EncryptionError::UnsupportedKdf { .. } => "unsupported-kdf",
+            EncryptionError::UnsupportedCipher { .. } => "unsupported-cipher",
+            EncryptionError::KeyDerivation { .. } => "key-derivation",
+            EncryptionError::CipherInit { .. } => "cipher-init",
+            EncryptionError::Encryption { .. } => "encryption",
+            EncryptionError::Decryption { .. } => "decryption",
+            EncryptionError::SizeMismatch { .. } => "size-mismatch",
+            EncryptionError::NotMv2File { .. } => "not-mv2",
+            EncryptionError::CorruptedDecryption => "corrupted-decryption",
+        }
+    }
+
+    // ------------------------------------------------------------------ edit recipes
+    // pieces separated by ',':  r<off>:<len> bytes of the capsule | l<hex> literal | x<off>:<mask> one byte xor mask
+    fn apply_recipe(cap: &[u8], recipe: &str) -> Vec<u8> {
+        let mut out = Vec::new();
+        for p in recipe.split(',') {
+            let (k, body) = p.split_at(1);
+            match k {
+                "r" => {
+                    let (a, b) = body.split_once(':').expect("r piece");
+                    let off: usize = a.parse().unwrap();
+                    let len: usize = b.parse().unwrap();
+                    let s = off.min(cap.len());
+                    let e = off.saturating_add(len).min(cap.len());
+                    out.extend_from_slice(&cap[s..e]);
+                }
+                "x" => {
+                    let (a, b) = body.split_once(':').expect("x piece");
+                    let off: usize = a.parse().unwrap();
+                    let m: u8 = b.parse().unwrap();
+                    if off < cap.len() { out.push(cap[off] ^ m); }
+                }
+                "l" => out.extend_from_slice(&unhexw(body).expect("l piece")),
+                _ => panic!("bad recipe piece {p}"),
+            }
+        }
+        out
+    }
+
+    /// ciphertext lengths of the frames of an honest capsule and the offsets where frames start/end
+    fn parse_frames(cap: &[u8]) -> (Vec<usize>, Vec<usize>) {
+        let mut lens = vec![];
+        let mut bounds = vec![HDR.min(cap.len())];
+        let mut p = HDR;
+        while p + 4 <= cap.len() {
+            let l = u32::from_le_bytes(cap[p..p + 4].try_into().unwrap()) as usize;
+            lens.push(l);
+            p = p + 4 + l;
+            bounds.push(p.min(cap.len()));
+        }
+        (lens, bounds)
+    }
+
+    struct Env {
+        dir: tempfile::TempDir,
+    }
+    impl Env {
+        fn p(&self, n: &str) -> PathBuf { self.dir.path().join(n) }
+    }
+
+    fn set_fast(fast: bool) {
+        // single-threaded harness
+        unsafe {
+            if fast { std::env::set_var("MEMVID_VERIF_FAST_KDF", "1") } else { std::env::remove_var("MEMVID_VERIF_FAST_KDF") }
+        }
+    }
+
+    #[derive(Clone)]
+    struct FileSpec {
+        gen_seed: Option<u64>, // Some: gen_file(seed, len); None: content given
+        content: Vec<u8>,
+        pw: Vec<u8>,
+    }
+    impl FileSpec {
+        fn json(&self) -> Value {
+            match self.gen_seed {
+                Some(s) => json!({"gen": [s, self.content.len()], "pw": hexw(&self.pw)}),
+                None => json!({"hex": hexw(&self.content), "pw": hexw(&self.pw)}),
+            }
+        }
+        fn from_json(v: &Value) -> FileSpec {
+            let pw = unhexw(v["pw"].as_str().unwrap()).unwrap();
+            if let Some(g) = v.get("gen") {
+                let s = g[0].as_u64().unwrap();
+                let l = g[1].as_u64().unwrap() as usize;
+                FileSpec { gen_seed: Some(s), content: gen_file(s, l), pw }
+            } else {
+                FileSpec { gen_seed: None, content: unhexw(v["hex"].as_str().unwrap()).unwrap(), pw }
+            }
+        }
+    }
+
+    struct Locked {
+        spec: FileSpec,
+        cap: Vec<u8>,
+        lens: Vec<usize>,
+        bounds: Vec<usize>,
+        model_loaded: bool,
+    }
+
+    /// lock the file with the real code, load the same file into the model, compare the layouts
+    fn lock_case(env: &Env, spec: &FileSpec, fast: bool, drv: &mut Option<Driver>, sum: &mut Summary) -> Option<Locked> {
+        let inp = env.p("a.mv2");
+        let capp = env.p("a.mv2e");
+        let _ = std::fs::remove_file(&capp);
+        std::fs::write(&inp, &spec.content).unwrap();
+        set_fast(fast);
+        let r = guarded(|| lock_file(&inp, Some(capp.as_path()), &spec.pw));
+        let case = json!({"file": spec.json(), "op": "lock", "full_kdf": !fast});
+        let r = match r {
+            Ok(r) => r,
+            Err(p) => {
+                sum.oracle_violation("lock-panicked", &p, case);
+                return None;
+            }
+        };
+        let valid = spec.content.len() >= 4 && &spec.content[..4] == b"MV2\0";
+        let imp: String;
+        let mut locked = None;
+        match &r {
+            Err(e) => {
+                imp = format!("err {}", err_kind(e));
+                sum.branch(&format!("lock-err-{}", err_kind(e)));
+                if valid {
+                    sum.oracle_violation("lock-failed-on-valid-file", &format!("{e}"), case.clone());
+                }
+                if capp.exists() {
+                    sum.oracle_violation("lock-error-left-a-capsule", &imp, case.clone());
+                }
+            }
+            Ok(_) => {
+                let cap = std::fs::read(&capp).unwrap();
+                let (lens, bounds) = parse_frames(&cap);
+                imp = format!("ok {} {} {}", hexw(&cap[..HDR.min(cap.len())]),
+                    if lens.is_empty() { "-".to_string() } else { lens.iter().map(|l| l.to_string()).collect::<Vec<_>>().join(",") },
+                    cap.len());
+                sum.branch("lock-ok");
+                if !valid {
+                    sum.oracle_violation("lock-accepted-non-mv2-file", &imp, case.clone());
+                }
+                // independent layout oracle: header fields, 1 MiB chunks with a 16-byte tag each
+                let n = spec.content.len();
+                let want: Vec<usize> = (0..n.div_ceil(CHUNK)).map(|i| (n - i * CHUNK).min(CHUNK) + 16).collect();
+                let hdr_ok = cap.len() >= HDR && &cap[0..4] == b"MV2E" && cap[4..8] == [1, 0, 1, 1]
+                    && u64::from_le_bytes(cap[52..60].try_into().unwrap()) == n as u64 && cap[60..64] == [1, 0, 0, 0];
+                if !hdr_ok || lens != want || *bounds.last().unwrap() != cap.len() {
+                    sum.oracle_violation("lock-layout-unexpected", &format!("lens={lens:?} want={want:?} hdr_ok={hdr_ok}"), case.clone());
+                }
+                locked = Some(Locked { spec: spec.clone(), cap, lens, bounds, model_loaded: false });
+            }
+        }
+        if let Some(d) = drv.as_mut() {
+            let (salt, nonce) = match &locked {
+                Some(l) => (hexw(&l.cap[8..40]), hexw(&l.cap[40..52])),
+                None => (hexw(&[0u8; 32]), hexw(&[0u8; 12])),
+            };
+            let req = match spec.gen_seed {
+                Some(s) => format!("load g {} {} {} {} {}", s, spec.content.len(), hexw(&spec.pw), salt, nonce),
+                None => format!("load h {} {} {} {}", hexw(&spec.content), hexw(&spec.pw), salt, nonce),
+            };
+            let model = d.ask(&req);
+            if model != imp {
+                sum.disagreement("lock_file layout vs model lock", case.clone(), &model, &imp);
+            } else if let Some(l) = locked.as_mut() {
+                l.model_loaded = true;
+            }
+        }
+        let canon = format!("lock|{}|{}", b3short(&spec.content), imp.split(' ').next().unwrap());
+        sum.case(&canon, r.is_ok(), || json!({"op": "lock", "file_len": spec.content.len(), "impl": imp.chars().take(160).collect::<String>()}));
+        locked
+    }
+
+    fn differs_only_in(a: &[u8], b: &[u8], allowed: impl Fn(usize) -> bool) -> bool {
+        a.len() == b.len() && (0..a.len()).all(|i| a[i] == b[i] || allowed(i))
+    }
+
+    /// failure class of an accepted modified capsule (None = no recorded class)
+    fn classify(l: &Locked, c2: &[u8], out: &[u8]) -> &'static str {
+        let cap = &l.cap;
+        let f = &l.spec.content;
+        if out == &f[..] && differs_only_in(c2, cap, |i| (44..52).contains(&i) || (61..64).contains(&i)) {
+            return SIG_IGNORED;
+        }
+        if c2.len() >= HDR && cap.len() >= HDR {
+            let is_prefix = c2.len() < cap.len() && cap[..c2.len()] == c2[..];
+            let at_or_in_prefix = l.bounds.iter().any(|&b| c2.len() >= b && c2.len() < b + 4);
+            if is_prefix && at_or_in_prefix { return SIG_TRUNC; }
+            // header differs only in original_size, body = whole frames of the capsule
+            if c2[..52] == cap[..52] && c2[60..64] == cap[60..64] && c2.len() < cap.len()
+                && cap[HDR..c2.len()] == c2[HDR..] && l.bounds.contains(&c2.len())
+                && u64::from_le_bytes(c2[52..60].try_into().unwrap()) == out.len() as u64 {
+                return SIG_SIZE_EDIT;
+            }
+            // one-shot header over the ciphertext of one chunk
+            if c2[60] != 1 && c2[..44] == cap[..44] {
+                for (i, &len) in l.lens.iter().enumerate() {
+                    let s = l.bounds[i] + 4;
+                    if c2.len() == HDR + len && c2[HDR..] == cap[s..s + len] && c2[44..52] == (i as u64).to_be_bytes() {
+                        return SIG_ONESHOT;
+                    }
+                }
+            }
+        }
+        "modified-capsule-accepted"
+    }
+
+    struct UnlockCase<'a> {
+        recipe: &'a str,
+        pw: &'a [u8],
+        fast: bool,
+        old_present: bool,
+        label: &'a str,
+        ask_model: bool,
+    }
+
+    fn unlock_case(env: &Env, l: &Locked, uc: &UnlockCase, drv: &mut Option<Driver>, sum: &mut Summary, known: &[String], verbose: bool) {
+        let f = &l.spec.content;
+        let c2 = apply_recipe(&l.cap, uc.recipe);
+        let xp = env.p("x.mv2e");
+        let outp = env.p("out.mv2");
+        std::fs::write(&xp, &c2).unwrap();
+        if uc.old_present { std::fs::write(&outp, SENTINEL).unwrap(); } else { let _ = std::fs::remove_file(&outp); }
+        set_fast(uc.fast);
+        let pw = uc.pw.to_vec();
+        let (xp2, outp2) = (xp.clone(), outp.clone());
+        let r = guarded(move || unlock_file(&xp2, Some(outp2.as_path()), &pw));
+        let case = json!({"file": l.spec.json(), "op": "unlock", "unlock_pw": hexw(uc.pw), "recipe": uc.recipe,
+                          "full_kdf": !uc.fast, "old_present": uc.old_present, "label": uc.label});
+        let after: Option<Vec<u8>> = std::fs::read(&outp).ok();
+        let mut stray: Vec<String> = std::fs::read_dir(env.dir.path()).unwrap()
+            .map(|e| e.unwrap().file_name().to_string_lossy().to_string())
+            .filter(|n| !["a.mv2", "a.mv2e", "x.mv2e", "out.mv2"].contains(&n.as_str())).collect();
+        stray.sort();
+        let r = match r {
+            Ok(r) => r,
+            Err(p) => {
+                sum.oracle_violation("unlock-panicked", &p, case);
+                return;
+            }
+        };
+        let modified = c2 != l.cap;
+        let wrong_pw = uc.pw != &l.spec.pw[..];
+        let imp = match &r {
+            Ok(_) => {
+                let out = after.clone().unwrap_or_default();
+                let rel = if out == *f { "same" } else if f.starts_with(&out) { "prefix" } else { "other" };
+                format!("ok {} {} {}", out.len(), fnv(&out), rel)
+            }
+            Err(e) => format!("err {}", err_kind(e)),
+        };
+        sum.branch(&format!("unlock-{}", imp.split(' ').take(if r.is_ok() { 1 } else { 2 }).collect::<Vec<_>>().join("-")));
+        sum.branch(&format!("case-{}", uc.label));
+        // ---- model (skipped for sampled-out cases unless the oracle fails, see below)
+        let mut model_fix = String::from("none");
+        let mut model_cur = String::from("none");
+        let ask = |drv: &mut Option<Driver>, sum: &mut Summary, model_fix: &mut String, model_cur: &mut String| {
+            if let (Some(d), true) = (drv.as_mut(), l.model_loaded) {
+                *model_fix = d.ask(&format!("unlock {} {}", hexw(uc.pw), uc.recipe));
+                if *model_fix != imp || verbose {
+                    *model_cur = d.ask(&format!("unlockcur {} {}", hexw(uc.pw), uc.recipe));
+                }
+                if *model_fix != imp {
+                    let what = if *model_cur == imp {
+                        "unlock_file behaves like the reader WITHOUT fixes/C29.diff (model of the repaired reader differs)"
+                    } else { "unlock_file vs model unlock" };
+                    sum.disagreement(what, case.clone(), &format!("cur={model_cur} fix={model_fix}"), &imp);
+                }
+            }
+        };
+        let mut asked = false;
+        if uc.ask_model {
+            ask(drv, sum, &mut model_fix, &mut model_cur);
+            asked = true;
+        }
+        // ---- property oracle (independent of the model)
+        let mut fail: Option<(String, String)> = None;
+        match &r {
+            Ok(_) => {
+                let out = after.clone().unwrap_or_default();
+                if after.is_none() {
+                    fail = Some(("unlock-ok-without-output".into(), "Ok but the output path does not exist".into()));
+                } else if !modified && !wrong_pw {
+                    if out != *f { fail = Some(("roundtrip-differs".into(), format!("unlock(lock f) has {} bytes, f has {}", out.len(), f.len()))); }
+                } else if wrong_pw && !modified {
+                    fail = Some(("wrong-password-accepted".into(), imp.clone()));
+                } else {
+                    let sig = classify(l, &c2, &out);
+                    let what = if out == *f {
+                        format!("modified capsule accepted (plaintext intact): {} [{}]", uc.label, uc.recipe.chars().take(80).collect::<String>())
+                    } else {
+                        format!("modified capsule accepted and a plaintext that differs from f was written ({} bytes instead of {}): {} [{}]",
+                            out.len(), f.len(), uc.label, uc.recipe.chars().take(80).collect::<String>())
+                    };
+                    fail = Some((sig.to_string(), what));
+                }
+            }
+            Err(e) => {
+                if !modified && !wrong_pw {
+                    fail = Some(("roundtrip-failed".into(), format!("unlock(lock f) failed: {e}")));
+                } else {
+                    let unchanged = if uc.old_present { after.as_deref() == Some(SENTINEL) } else { after.is_none() };
+                    if !unchanged {
+                        fail = Some(("failed-unlock-touched-output".into(),
+                            format!("unlock failed ({imp}) but the output path changed: {:?} bytes", after.as_ref().map(|a| a.len()))));
+                    }
+                }
+            }
+        }
+        if fail.is_none() && !stray.is_empty() {
+            fail = Some(("temporary-file-left-behind".into(), format!("{stray:?}")));
+            for s in &stray { let _ = std::fs::remove_file(env.p(s)); }
+        }
+        let nontrivial = l.cap.len() > HDR;
+        let canon = format!("unlock|{}|{}|{}|{}|{}", b3short(f), hexw(uc.pw), uc.recipe, uc.old_present, imp);
+        sum.case(&canon, nontrivial, || json!({"op": "unlock", "file_len": f.len(), "frames": l.lens.len(), "label": uc.label,
+            "recipe": uc.recipe.chars().take(120).collect::<String>(), "impl": imp}));
+        if fail.is_some() && !asked {
+            ask(drv, sum, &mut model_fix, &mut model_cur);
+        }
+        if verbose {
+            println!("impl : {imp}");
+            println!("model: repaired reader: {model_fix}; reader before fixes/C29.diff: {model_cur}");
+            println!("capsule' = {} bytes (lock output {} bytes), modified={modified}, wrong_pw={wrong_pw}", c2.len(), l.cap.len());
+        }
+        if let Some((sig, what)) = fail {
+            if verbose { println!("oracle: FAIL {sig}: {what}"); }
+            let predicted = model_fix == imp;
+            if known.iter().any(|k| k == &sig) && predicted {
+                sum.known_finding(&sig, &what, case);
+            } else {
+                sum.oracle_violation(&sig, &what, case);
+            }
+        } else if verbose {
+            println!("oracle: ok");
+        }
+    }
+
+    // ------------------------------------------------------------------ recipe generators
+    fn le64(v: u64) -> String { hexw(&v.to_le_bytes()) }
+
+    fn recipes_for(l: &Locked, rng: &mut Rng, thorough: bool, small_budget: bool) -> Vec<(String, String)> {
+        let n = l.cap.len();
+        let mut v: Vec<(String, String)> = vec![];
+        let all = format!("r0:{n}");
+        v.push(("identity".into(), all.clone()));
+        // truncation at every frame boundary -4..+4 (the capsule end itself is the identity)
+        let mut cuts: Vec<usize> = vec![0, 1, 3, 4, 8, 39, 40, 52, 60, 63];
+        for &b in &l.bounds {
+            for d in -4i64..=4 {
+                let c = b as i64 + d;
+                if c >= 0 && (c as usize) < n { cuts.push(c as usize); }
+            }
+        }
+        let nrand = if small_budget { 2 } else if thorough { 12 } else { 5 };
+        for _ in 0..nrand { cuts.push(rng.usize(0, n - 1)); }
+        cuts.sort();
+        cuts.dedup();
+        for c in cuts {
+            let lab = if l.bounds.iter().any(|&b| c >= b && c < b + 4) && c >= HDR { "trunc-at-boundary-or-prefix" }
+                      else if c < HDR { "trunc-in-header" } else { "trunc-in-body" };
+            v.push((lab.into(), format!("r0:{c}")));
+        }
+        // appended bytes
+        v.push(("append-1".into(), format!("{all},l00")));
+        v.push(("append-3".into(), format!("{all},l{}", hexw(&rng.bytes(3)))));
+        v.push(("append-4-zero".into(), format!("{all},l00000000")));
+        v.push(("append-20".into(), format!("{all},l{}", hexw(&rng.bytes(20)))));
+        // one flipped bit: every header offset, every length-prefix byte, bodies, tags
+        let flip = |off: usize, rng: &mut Rng| format!("r0:{off},x{off}:{},r{}:{}", 1u8 << rng.below(8), off + 1, n);
+        let hdr_offs: Vec<usize> = if small_budget { vec![0, 4, 6, 7, 8, 40, 43, 44, 51, 52, 59, 60, 61, 63] } else { (0..HDR).collect() };
+        for off in hdr_offs {
+            let lab = match off { 0..=3 => "flip-magic", 4..=5 => "flip-version", 6 => "flip-kdf", 7 => "flip-cipher",
+                8..=39 => "flip-salt", 40..=43 => "flip-nonce-prefix", 44..=51 => "flip-nonce-counter-bytes",
+                52..=59 => "flip-original-size", 60 => "flip-reserved0", _ => "flip-reserved1-3" };
+            v.push((lab.into(), flip(off, rng)));
+        }
+        for (i, &len) in l.lens.iter().enumerate() {
+            let s = l.bounds[i];
+            for k in 0..4 {
+                if small_budget && k != 0 && k != 3 { continue; }
+                v.push(("flip-length-prefix".into(), flip(s + k, rng)));
+            }
+            let nb = if small_budget { 1 } else { 3 };
+            for _ in 0..nb {
+                if len > 16 { v.push(("flip-body".into(), flip(s + 4 + rng.usize(0, len - 17), rng))); }
+            }
+            if len > 16 { v.push(("flip-body".into(), flip(s + 4, rng))); }
+            v.push(("flip-tag".into(), flip(s + 4 + len - 1 - rng.usize(0, 15.min(len - 1)), rng)));
+        }
+        // frame-level edits
+        let nf = l.lens.len();
+        let fr = |i: usize| format!("r{}:{}", l.bounds[i], l.bounds[i + 1] - l.bounds[i]);
+        if nf >= 2 {
+            let mut order: Vec<usize> = (0..nf).collect();
+            order.swap(0, 1);
+            v.push(("swap-frames".into(), format!("r0:{HDR},{}", order.iter().map(|&i| fr(i)).collect::<Vec<_>>().join(","))));
+            if nf >= 3 {
+                let mut order: Vec<usize> = (0..nf).collect();
+                order.swap(nf - 2, nf - 1);
+                v.push(("swap-frames".into(), format!("r0:{HDR},{}", order.iter().map(|&i| fr(i)).collect::<Vec<_>>().join(","))));
+            }
+            v.push(("drop-first-frame".into(), format!("r0:{HDR},r{}:{}", l.bounds[1], n)));
+            v.push(("drop-middle-or-last-frame".into(), format!("r0:{},r{}:{}", l.bounds[nf - 1], l.bounds[nf], n)));
+        }
+        if nf >= 1 {
+            v.push(("duplicate-frame".into(), format!("{all},{}", fr(nf - 1))));
+            v.push(("duplicate-frame".into(), format!("r0:{},{},r{}:{}", l.bounds[1], fr(0), l.bounds[1], n)));
+            // same ciphertext with a shorter / longer declared length
+            let len0 = l.lens[0] as u32;
+            v.push(("length-prefix-minus-1".into(), format!("r0:{HDR},l{},r{}:{}", hexw(&(len0 - 1).to_le_bytes()), HDR + 4, n)));
+            v.push(("length-prefix-plus-1".into(), format!("r0:{HDR},l{},r{}:{}", hexw(&(len0 + 1).to_le_bytes()), HDR + 4, n)));
+            v.push(("length-prefix-huge".into(), format!("r0:{HDR},lffffff7f,r{}:{}", HDR + 4, n)));
+        }
+        // header original_size rewritten, with and without cutting the stream at a frame boundary
+        let mut plain = 0u64;
+        for j in 0..=nf {
+            if j > 0 { plain += (l.lens[j - 1] - 16) as u64; }
+            if j < nf {
+                v.push(("size-edit-plus-truncation".into(), format!("r0:52,l{},r60:{}", le64(plain), l.bounds[j] - 60)));
+            }
+        }
+        v.push(("size-edit-only".into(), format!("r0:52,l{},r60:{}", le64(l.spec.content.len() as u64 + 1), n)));
+        v.push(("size-edit-only".into(), format!("r0:52,l{},r60:{}", le64(0), n)));
+        // one-shot header wrapped around the ciphertext of chunk m
+        for m in 0..nf.min(2) {
+            let s = l.bounds[m] + 4;
+            v.push(("oneshot-rewrap".into(), format!("r0:44,l{},l{},l00000000,r{}:{}", hexw(&(m as u64).to_be_bytes()), le64((l.lens[m] - 16) as u64), s, l.lens[m])));
+        }
+        // one-shot flag only / one-shot flag and the whole body
+        v.push(("reserved0-zero".into(), format!("r0:60,l00,r61:{n}")));
+        v
+    }
+
+    fn file_specs(rng: &mut Rng, thorough: bool) -> Vec<(FileSpec, bool)> {
+        // (spec, small_budget): small_budget = fewer cases (capsule is expensive on the model side)
+        let mut v = vec![];
+        let pw = |rng: &mut Rng| { let n = rng.usize(1, 12); rng.bytes(n) };
+        let g = |len: usize, rng: &mut Rng, small: bool| {
+            let s = rng.u64() >> 1;
+            (FileSpec { gen_seed: Some(s), content: gen_file(s, len), pw: pw(rng) }, small)
+        };
+        // fixed boundary sizes
+        for len in [4usize, 5, 20, 4096] { v.push(g(len, rng, false)); }
+        if thorough { v.push(g(CHUNK - 1, rng, true)); }
+        v.push(g(CHUNK, rng, true));
+        v.push(g(CHUNK + 1, rng, true));
+        v.push(g(2 * CHUNK + 7, rng, true));
+        if thorough {
+            v.push(g(2 * CHUNK, rng, true));
+            v.push(g(3 * CHUNK, rng, true));
+            v.push(g(3 * CHUNK + rng.usize(1, 4096), rng, true));
+            v.push(g(rng.usize(CHUNK + 2, 3 * CHUNK), rng, true));
+        }
+        let nsmall = if thorough { 40 } else { 8 };
+        for _ in 0..nsmall {
+            let len = match rng.below(4) { 0 => rng.usize(4, 40), 1 => rng.usize(41, 2000), _ => rng.usize(2001, 70000) };
+            v.push(g(len, rng, false));
+        }
+        // files lock must refuse
+        for content in [vec![], b"MV2".to_vec(), b"MV3\0rest".to_vec(), b"XXXXXXXXXXXXXXXX".to_vec(), b"mv2\0abcd".to_vec()] {
+            v.push((FileSpec { gen_seed: None, content, pw: b"pw".to_vec() }, false));
+        }
+        // arbitrary (non-generated) content travels as hex
+        let mut c = b"MV2\0".to_vec();
+        c.extend(rng.bytes(300));
+        v.push((FileSpec { gen_seed: None, content: c, pw: vec![0u8, 255, 10, 32] }, false));
+        v
+    }
+
+    /// a real memory file made by Memvid (create, put, commit)
+    fn memvid_file(env: &Env) -> Option<Vec<u8>> {
+        let p = env.p("real.mv2");
+        let r = guarded({
+            let p = p.clone();
+            move || -> Result<(), memvid_core::MemvidError> {
+                let mut m = memvid_core::Memvid::create(&p)?;
+                m.put_bytes(b"capsule round trip on a real memory file")?;
+                m.commit()?;
+                Ok(())
+            }
+        });
+        let bytes = std::fs::read(&p).ok();
+        let _ = std::fs::remove_file(&p);
+        match r { Ok(Ok(())) => bytes, _ => None }
+    }
+
+    pub fn main() {
+        let args = parse_args();
+        let mut drv: Option<Driver> = if args.driver.as_os_str() == "none" { None } else { Some(Driver::spawn(&args.driver).expect("spawn driver")) };
+        let known: Vec<String> = args.extra.get("known").map(|s| s.split(',').map(|x| x.to_string()).collect()).unwrap_or_default();
+        let mut sum = Summary::new("C29", &args,
+            "files: MV2 magic + xorshift bytes of 4 B .. 2 MiB+7 (quick) / 3 MiB+4 KiB (thorough) incl. CHUNK-1, CHUNK, CHUNK+1, k*CHUNK, \
+             one real Memvid file, files lock must refuse; per capsule: identity, truncation at every frame boundary -4..+4 and header/random \
+             offsets, appended bytes, one flipped bit at every header offset / length-prefix byte / body / tag, frame swap, drop, duplicate, \
+             length-prefix +-1, original_size rewritten with and without truncation, one-shot re-wrap, wrong password, output path present or \
+             absent; Argon2 cost reduced by hook except 3 cases per run; non-trivial = capsule with at least one frame; distinct = file hash + recipe + result");
+        sum.expect_branches(&["lock-ok", "lock-err-io", "lock-err-not-mv2", "unlock-ok", "unlock-err-io", "unlock-err-decryption",
+            "unlock-err-size-mismatch", "unlock-err-invalid-magic", "unlock-err-unsupported-version", "unlock-err-unsupported-kdf",
+            "unlock-err-unsupported-cipher", "case-trunc-at-boundary-or-prefix", "case-swap-frames", "case-flip-tag", "case-flip-length-prefix",
+            "case-size-edit-plus-truncation", "case-oneshot-rewrap", "case-full-kdf", "case-wrong-password"]);
+        let env = Env { dir: tempfile::tempdir().expect("tempdir") };
+
+        if args.mode == "replay" {
+            let case = load_replay(args.replay_file.as_ref().expect("replay file"));
+            let input = case.get("input").unwrap_or(&case).clone();
+            let spec = FileSpec::from_json(&input["file"]);
+            let fast = !input["full_kdf"].as_bool().unwrap_or(false);
+            println!("file: {} bytes, password {}", spec.content.len(), hexw(&spec.pw));
+            let l = lock_case(&env, &spec, fast, &mut drv, &mut sum);
+            if input["op"].as_str() == Some("unlock") {
+                if let Some(l) = l {
+                    println!("lock : capsule {} bytes, frames {:?}", l.cap.len(), l.lens);
+                    let pw = unhexw(input["unlock_pw"].as_str().unwrap()).unwrap();
+                    let uc = UnlockCase { recipe: input["recipe"].as_str().unwrap(), pw: &pw, fast,
+                        old_present: input["old_present"].as_bool().unwrap_or(false), label: input["label"].as_str().unwrap_or("replay"), ask_model: true };
+                    println!("recipe: {}", uc.recipe);
+                    unlock_case(&env, &l, &uc, &mut drv, &mut sum, &known, true);
+                } else {
+                    println!("lock failed; nothing to unlock");
+                }
+            }
+            if let Some(d) = &drv { sum.model_requests = d.requests; }
+            sum.finish(&args);
+        }
+
+        let mut rng = Rng::new(args.seed);
+        let t0 = std::time::Instant::now();
+        // ---- fixed corpus: the recorded witnesses on a 40-byte file and on a file of two chunks
+        {
+            let small = FileSpec { gen_seed: Some(29), content: gen_file(29, 40), pw: b"correct horse".to_vec() };
+            if let Some(l) = lock_case(&env, &small, true, &mut drv, &mut sum) {
+                for (label, recipe) in [
+                    ("flip-nonce-counter-bytes", "r0:47,x47:1,r48:200".to_string()),
+                    ("flip-reserved1-3", "r0:62,x62:128,r63:200".to_string()),
+                    ("size-edit-plus-truncation", format!("r0:52,l{},r60:4", le64(0))),
+                    ("oneshot-rewrap", format!("r0:44,l0000000000000000,l{},l00000000,r68:56", le64(40))),
+                    ("trunc-at-boundary-or-prefix", "r0:64".to_string()),
+                    ("trunc-at-boundary-or-prefix", "r0:66".to_string()),
+                ] {
+                    let uc = UnlockCase { recipe: &recipe, pw: &small.pw, fast: true, old_present: true, label, ask_model: true };
+                    unlock_case(&env, &l, &uc, &mut drv, &mut sum, &known, false);
+                }
+            }
+            let two = FileSpec { gen_seed: Some(2929), content: gen_file(2929, CHUNK + 5), pw: b"pw".to_vec() };
+            if let Some(l) = lock_case(&env, &two, true, &mut drv, &mut sum) {
+                let b1 = l.bounds[1];
+                for (label, recipe) in [
+                    ("trunc-at-boundary-or-prefix", format!("r0:{b1}")),
+                    ("trunc-at-boundary-or-prefix", format!("r0:{}", b1 + 2)),
+                    ("size-edit-plus-truncation", format!("r0:52,l{},r60:{}", le64(CHUNK as u64), b1 - 60)),
+                    ("oneshot-rewrap", format!("r0:44,l0000000000000000,l{},l00000000,r68:{}", le64(CHUNK as u64), CHUNK + 16)),
+                ] {
+                    let uc = UnlockCase { recipe: &recipe, pw: &two.pw, fast: true, old_present: false, label, ask_model: true };
+                    unlock_case(&env, &l, &uc, &mut drv, &mut sum, &known, false);
+                }
+            }
+        }
+        // ---- production Argon2 parameters: round trip, one truncation, one flipped bit
+        {
+            let spec = FileSpec { gen_seed: Some(77), content: gen_file(77, 1000), pw: b"full cost".to_vec() };
+            if let Some(l) = lock_case(&env, &spec, false, &mut drv, &mut sum) {
+                let n = l.cap.len();
+                for recipe in [format!("r0:{n}"), format!("r0:{}", n - 1), format!("r0:100,x100:4,r101:{n}")] {
+                    let uc = UnlockCase { recipe: &recipe, pw: &spec.pw, fast: false, old_present: false, label: "full-kdf", ask_model: true };
+                    unlock_case(&env, &l, &uc, &mut drv, &mut sum, &known, false);
+                }
+            }
+        }
+        // ---- generated files
+        let mut specs = file_specs(&mut rng, args.thorough);
+        if let Some(bytes) = memvid_file(&env) {
+            sum.notes.push(format!("real Memvid file: {} bytes", bytes.len()));
+            sum.branch("real-memvid-file");
+            specs.insert(4, (FileSpec { gen_seed: None, content: bytes, pw: b"memvid".to_vec() }, true));
+        }
+        for (spec, small_budget) in specs {
+            let Some(l) = lock_case(&env, &spec, true, &mut drv, &mut sum) else { continue };
+            let recipes = recipes_for(&l, &mut rng, args.thorough, small_budget);
+            // a request on a capsule of a megabyte and more costs the Lean driver ~0.5 s per MiB: there the
+            // model is asked for the first case of every label (quick: of the labels in `QUICK_BIG`) whose
+            // edited capsule is larger than 128 KiB, for every smaller edited capsule, and whenever the
+            // oracle fails; every case is still run on the implementation and judged by the oracle
+            const QUICK_BIG: &[&str] = &["identity", "trunc-at-boundary-or-prefix", "swap-frames", "flip-tag",
+                "flip-length-prefix", "size-edit-plus-truncation", "oneshot-rewrap", "append-3"];
+            let mut seen: std::collections::BTreeSet<String> = Default::default();
+            for (label, recipe) in &recipes {
+                let old_present = rng.bool();
+                let expensive = small_budget && apply_recipe(&l.cap, recipe).len() > 128 * 1024;
+                let ask_model = !expensive
+                    || ((args.thorough || QUICK_BIG.contains(&label.as_str())) && seen.insert(label.clone()));
+                if !ask_model { sum.branch("model-not-asked"); }
+                let uc = UnlockCase { recipe, pw: &spec.pw, fast: true, old_present, label, ask_model };
+                unlock_case(&env, &l, &uc, &mut drv, &mut sum, &known, false);
+            }
+            // wrong password on the untouched capsule
+            let mut wp = spec.pw.clone();
+            wp[0] ^= 1;
+            let all = format!("r0:{}", l.cap.len());
+            for pw in [wp, vec![], [spec.pw.clone(), vec![0]].concat()] {
+                let uc = UnlockCase { recipe: &all, pw: &pw, fast: true, old_present: rng.bool(), label: "wrong-password", ask_model: l.cap.len() <= 128 * 1024 || pw.is_empty() };
+                unlock_case(&env, &l, &uc, &mut drv, &mut sum, &known, false);
+            }
+        }
+        sum.notes.push(format!("harness wall {:.1}s", t0.elapsed().as_secs_f64()));
+        if let Some(d) = &drv { sum.model_requests = d.requests; }
+        let _ = Path::new("");
+        sum.finish(&args);
+    }
 }
